@@ -639,4 +639,24 @@ def boundary(repo: Repo) -> RuleRun:
 boundary.rule_id = "C13.BOUNDARY"
 
 
-RULES = [rollback, probe_restore, who_writes_points, backport_rule, warning_filter, affine_kinds, link_relation, owns_geometry, angle_dimension, float_stores, backport_table, mirror_matrix, grid_quality, symmetry_exact, match_tolerance, links_accumulate, boundary]
+def no_alias_snapshot(repo: Repo) -> RuleRun:
+    """'linked vertices keep their ... relation to their leader': no update is skipped on the strength of a comparison with an alias."""
+    from ..memo import alias_snapshot_rule
+
+    return alias_snapshot_rule(repo, PROP, "C13.NO-ALIAS-SNAPSHOT")
+
+
+no_alias_snapshot.rule_id = "C13.NO-ALIAS-SNAPSHOT"
+
+
+def radial_exact(repo: Repo) -> RuleRun:
+    """'every clamped vertex ends on its ... circle': same rule as C17.RADIAL-EXACT."""
+    from . import c17
+
+    return c17.radial_exact(repo, PROP, "C13.RADIAL-EXACT")
+
+
+radial_exact.rule_id = "C13.RADIAL-EXACT"
+
+
+RULES = [rollback, probe_restore, who_writes_points, backport_rule, warning_filter, affine_kinds, link_relation, owns_geometry, angle_dimension, float_stores, backport_table, mirror_matrix, grid_quality, symmetry_exact, match_tolerance, links_accumulate, boundary, no_alias_snapshot, radial_exact]
